@@ -349,7 +349,7 @@ def run(ctx):
         for k in range(40 if ctx.thorough else 8):
             jobs.append(dict(e2ejobs.job(rng, size='small'), timeout=180))
         # several PARALLEL ddmin rounds in one run (more than 2*jobs subsets, several mutators with work to do)
-        wide = ('(set-logic ALL)\n' + ''.join(f'(declare-const v{k} Int)\n' for k in range(10))
+        wide = ('(set-logic ALL)\n(set-info :source "Z\u00fcrich \u03bb \U0001F600")\n' + ''.join(f'(declare-const v{k} Int)\n' for k in range(10))
                 + ''.join(f'(assert (> (+ v{k % 10} {k + 2}) (* v{(k + 3) % 10} {k + 3})))\n' for k in range(14)) + '(check-sat)\n')
         for k in range(6 if ctx.thorough else 3):
             jobs.append(dict(text=wide, opts=['--strategy', ['ddmin', 'hybrid', 'ddmin'][k % 3], '-j', str(2 + k % 3)],
